@@ -10,6 +10,7 @@ package main
 import (
 	"fmt"
 	"math"
+	"math/cmplx"
 	"os"
 	"path/filepath"
 	"regexp"
@@ -296,6 +297,25 @@ func floatTable(toks []obsTok) string {
 				floatEntry(seen, &out, "-"+f2)
 			}
 		}
+	}
+	return encList(out)
+}
+
+// cmplx.Abs / cmplx.Phase of the complex literals (the collator ranks complex numbers by them)
+func cxTable(toks []obsTok) string {
+	seen := map[string]bool{}
+	var out []string
+	for _, t := range toks {
+		if t.typ != cdc.ComplexToken || seen[t.val] {
+			continue
+		}
+		seen[t.val] = true
+		c, err := strconv.ParseComplex(t.val, 128)
+		if err != nil {
+			continue
+		}
+		n := complex(real(c)+0, imag(c)+0)
+		out = append(out, fmt.Sprintf("(%s, %s, (%s, %s))", encFloatBits(real(c)), encFloatBits(imag(c)), encFloatBits(cmplx.Abs(n)), encFloatBits(cmplx.Phase(n))))
 	}
 	return encList(out)
 }
@@ -802,8 +822,8 @@ func genCdcnParse(prop string, seed uint64, tier, outDir string, count int) erro
 			for j, tk := range c.toks {
 				tl[j] = tk.coq()
 			}
-			fmt.Fprintf(&sb, "{| pc_src := %s;\n   pc_floats := %s;\n   pc_toks := %s;\n   pc_out := %s;\n   pc_leak := %v; pc_stable := %v |}",
-				encRunes(c.src), floatTable(c.toks), encList(tl), c.obs.coq(), c.leak, c.stable)
+			fmt.Fprintf(&sb, "{| pc_src := %s;\n   pc_floats := %s;\n   pc_cx := %s;\n   pc_toks := %s;\n   pc_out := %s;\n   pc_leak := %v; pc_stable := %v |}",
+				encRunes(c.src), floatTable(c.toks), cxTable(c.toks), encList(tl), c.obs.coq(), c.leak, c.stable)
 		}
 		sb.WriteString("\n].\nDefinition M := Eval vm_compute in pmismatches cases.\nPrint M.\n")
 		if err := os.WriteFile(filepath.Join(outDir, name), []byte(sb.String()), 0o644); err != nil {
